@@ -253,6 +253,61 @@ def main() -> int:
                                       "in_pool": got[:500], "alone": solo[i][:500],
                                       "spec": "analyses running concurrently in other threads with their own providers do not interfere"})
 
+    # deterministic interleavings: run A is parked inside a provider lookup (after it has learnt tables from its own
+    # earlier statements) while run B, in another thread with its own provider, runs from start to end
+    class Pausing(DummyMetaDataProvider):
+        def __init__(self, metadata, pause_table, paused, resume):
+            super().__init__(metadata)
+            self.pause_table, self.paused, self.resume, self.done = pause_table, paused, resume, False
+
+        def _get_table_columns(self, schema, table, **kwargs):
+            if f"{schema}.{table}" == self.pause_table and not self.done:
+                self.done = True
+                self.paused.set()
+                self.resume.wait(30)
+            return super()._get_table_columns(schema, table, **kwargs)
+
+    def result_of(sql, provider):
+        try:
+            lr = LineageRunner(sql, metadata_provider=provider)
+            lr._eval()
+            return full_result(lr)
+        except Exception as e:
+            return "RAISED:" + type(e).__name__
+
+    a_scripts = [
+        "create table s.t1 as select a, b from s.t9;\ninsert into s.t2 select * from s.t3;\ninsert into s.t4 select * from s.t1",
+        "create table s.t1 as select a, b from s.t9;\ninsert into s.t2 select c from s.t3 x join s.t1 y on 1 = 1;\ninsert into s.t4 select a from s.t1 p join s.t3 q on 1 = 1",
+        "insert into s.t1 select * from s.t3;\ninsert into s.t2 select * from s.t3;\ninsert into s.t4 select * from s.t1",
+    ]
+    b_scripts = [
+        "insert into s.out select * from s.t1",
+        "insert into s.out select a from s.t1 p join s.t5 q on 1 = 1",
+        "create table s.t1 as select z from s.t5;\ninsert into s.out select * from s.t1",
+        "select * from s.t5",
+    ]
+    md_a, md_b = {"s.t3": ["c", "d"]}, {"s.t5": ["x"]}
+    for sa, sb in itertools.product(a_scripts, b_scripts):
+        solo_a = result_of(sa, DummyMetaDataProvider(dict(md_a)))
+        solo_b = result_of(sb, DummyMetaDataProvider(dict(md_b)))
+        paused, resume = threading.Event(), threading.Event()
+        pa = Pausing(dict(md_a), "s.t3", paused, resume)
+        out = {}
+        ta = threading.Thread(target=lambda: out.__setitem__("a", result_of(sa, pa)))
+        ta.start()
+        if paused.wait(30):
+            out["b"] = result_of(sb, DummyMetaDataProvider(dict(md_b)))
+        resume.set()
+        ta.join(60)
+        ck.count()
+        dist["paused_interleavings"] = dist.get("paused_interleavings", 0) + 1
+        ck.nontriv(("paused", sa, sb))
+        for who, got, want, sql in (("A (parked, then resumed)", out.get("a"), solo_a, sa), ("B (ran while A was parked)", out.get("b"), solo_b, sb)):
+            if got != want:
+                spec_failures.append({"suite": "T4-paused-interleaving", "run": who, "script_A": sa, "script_B": sb, "sql": sql,
+                                      "interleaved": str(got)[:600], "alone": str(want)[:600],
+                                      "spec": "a run in another thread with its own provider neither sees what this run learnt nor makes it forget"})
+
     ck.notes["input_distribution"] = dist
     ck.coverage["disagreements_checked"] = len(disagreements)
     if spec_failures:
@@ -270,7 +325,7 @@ def main() -> int:
         ck.violation({"broken": "proof obligations of Props/C12.v", "detail": ck.broken_obligation}, "proof", no_input=not spec_failures)
     return ck.finish(rule="histories of 2-4 scripts (1-4 abstract statements each: CREATE TABLE AS SELECT * / named columns, bare SELECT, "
                           "unparsable or unsupported statement at every position) on one shared provider x 3 base metadata (incl. a falsy provider); "
-                          "provider raising at its j-th lookup for every j; shared default provider; shuffled corpus history; 16-thread pool; "
+                          "provider raising at its j-th lookup for every j; shared default provider; shuffled corpus history; 16-thread pool; 12 deterministic two-thread interleavings (run A parked inside a provider lookup while run B runs); "
                           "non-trivial = distinct (metadata, history)")
 
 
